@@ -46,6 +46,13 @@ def interpFlat (ext : Bool) : List (List K) → List K → List K → Option K
     interpAxis ext (size (rest.map List.length)) (fun v => interpFlat ext rest v p) true ax vals x
   | _, _, _ => none
 
+/-- an affine function `c0 + Σ c_k x_k` sampled on the tensor grid `axes` (slowest axis first),
+as the C-order flat array — the specification side of "interpolating an affine field" -/
+def sampleAffine : List (List K) → K → List K → List K
+  | [], c0, _ => [c0]
+  | ax :: rest, c0, c :: cs => ax.flatMap fun t => sampleAffine rest (c0 + c * t) cs
+  | _ :: _, _, [] => []
+
 /-- the shape check: every axis needs two knots and the values must fill the grid -/
 def shapeOk (axes : List (List K)) (vals : List K) : Bool :=
   axes.all (fun ax => decide (2 ≤ ax.length)) && decide (vals.length = size (axes.map List.length))
